@@ -542,13 +542,15 @@ impl<'p> ObjectData<'p> {
 
     pub(super) fn get_fields_order(&self) -> &[(InternedStr<'p>, ast::Visibility)] {
         enum FieldState {
-            Normal(ast::Visibility),
+            // The second field is the last layer hidden by a removal found below
+            // the field (layers up to it do not contribute to the visibility).
+            Normal(ast::Visibility, usize),
             Removed(usize),
         }
 
         fn field_to_state(field: &ObjectField<'_>, layer_i: usize) -> FieldState {
             match field {
-                ObjectField::Normal(data) => FieldState::Normal(data.visibility),
+                ObjectField::Normal(data) => FieldState::Normal(data.visibility, 0),
                 ObjectField::Removed(depth) => FieldState::Removed(layer_i + *depth),
             }
         }
@@ -571,12 +573,22 @@ impl<'p> ObjectData<'p> {
                         std::collections::btree_map::Entry::Occupied(mut entry) => {
                             let entry = entry.get_mut();
                             match entry {
-                                FieldState::Normal(ast::Visibility::Default) => {
-                                    if let ObjectField::Normal(f) = f {
-                                        *entry = FieldState::Normal(f.visibility);
+                                FieldState::Normal(ast::Visibility::Default, removed_layer_i) => {
+                                    if layer_i > *removed_layer_i {
+                                        match f {
+                                            ObjectField::Normal(f) => {
+                                                *entry = FieldState::Normal(
+                                                    f.visibility,
+                                                    *removed_layer_i,
+                                                );
+                                            }
+                                            ObjectField::Removed(depth) => {
+                                                *removed_layer_i = layer_i + *depth;
+                                            }
+                                        }
                                     }
                                 }
-                                FieldState::Normal(_) => {}
+                                FieldState::Normal(..) => {}
                                 FieldState::Removed(removed_layer_i) => {
                                     if layer_i > *removed_layer_i {
                                         *entry = field_to_state(f, layer_i);
@@ -590,7 +602,7 @@ impl<'p> ObjectData<'p> {
             all_fields
                 .into_iter()
                 .filter_map(|(n, f)| match f {
-                    FieldState::Normal(vis) => Some((n.0, vis)),
+                    FieldState::Normal(vis, _) => Some((n.0, vis)),
                     FieldState::Removed(_) => None,
                 })
                 .collect()
